@@ -538,7 +538,7 @@ def _run_combined(case, r):
         r.check(np.array_equal(p, np.array(flat, dtype=float)), cell, "the parameter vector is left unchanged")
         observe(cell, model, new, parameters=flat, dofs=dofs)
     for choice in _dof_lists(seq):
-        dofs, vec, want = [], [], []
+        dofs, vec, want, segs = [], [], [], []
         partial_followed, partial, all_on_linear = False, False, False
         seen_partial = False
         for i, (k, c) in enumerate(zip(seq, choice)):
@@ -552,6 +552,7 @@ def _run_combined(case, r):
             sub = [full_new[NAMES[k].index(nm)] for nm in names]
             dofs.append((i, d))
             vec.extend(sub)
+            segs.append(((i, d), list(sub)))
             want.append(_updated(k, init[i], names, sub))
             if len(names) < len(NAMES[k]):
                 partial = seen_partial = True
@@ -569,6 +570,19 @@ def _run_combined(case, r):
             r.fail(cell, "every list of (position, subset) pairs can be addressed with the flat vector of exactly the addressed parameters", parts=seq, dofs=dofs, parameters=vec, exception=f"{type(e).__name__}: {e}")
             continue
         observe(cell, model, want, parameters=vec, dofs=dofs)
+        # the same addressed parameters listed in the reverse order of parts: the flat vector is
+        # consumed in the order of the list that was given, not in the order of the parts
+        if len(segs) >= 2:
+            dofs_r = [d_ for d_, _ in reversed(segs)]
+            vec_r = [v for _, sub_ in reversed(segs) for v in sub_]
+            model_r = build(init)
+            cell_r = cell + "/listed-in-reverse"
+            try:
+                model_r.update_model_parameters(np.array(vec_r, dtype=float), dofs_r)
+            except Exception as e:
+                r.fail(cell_r, "a dof list may name the parts in any order", parts=seq, dofs=dofs_r, parameters=vec_r, exception=f"{type(e).__name__}: {e}")
+                continue
+            observe(cell_r, model_r, want, parameters=vec_r, dofs=dofs_r)
     if changed:
         r.nontriv(case)
     r.outcome(("combined", seq, var, digest))
@@ -782,6 +796,18 @@ def _run_labelwise(case, r):
                     wants.append(hom.reshape(shape))
                 regionwise(cell, np.asarray(got).reshape(shape), wants, a)
                 digest.append(np.asarray(got).tolist())
+            # the same label-wise model on signals stored as integers (grey values / counts)
+            if form == "2d":
+                for dt_ in ("uint8", "uint16", "int32"):
+                    ai = np.abs(np.round(4.0 * sigs[0])).astype(dt_) + (3 if k != "clip" else 0)
+                    cell_i = f"C14/labelwise/hetmodel/obj={k}/signal=2d-integer"
+                    try:
+                        got_i = np.asarray(het(ai.copy()))
+                    except Exception as e:
+                        r.fail(cell_i, "the label-wise model is usable on integer-typed signals the homogeneous model accepts", dtype=dt_, exception=f"{type(e).__name__}: {e}")
+                        continue
+                    wants_i = [np.asarray(_make_part(k, pars[i])(ai.copy()), dtype=float).reshape(shape) for i in range(L)]
+                    regionwise(cell_i, got_i.reshape(shape), wants_i, ai, dtype=dt_)
             # the prototype handed to the constructor is not changed by updating the per-label copies
             a = sigs[0]
             r.check(_same(np.asarray(base(a.copy()), dtype=float), _ref_part(k, COMB_INIT[0][k][0])(a)), cell, "updating the per-label models leaves the prototype model unchanged")
